@@ -137,6 +137,9 @@ def with_signature(f, sig, ver):
 def bot_token(cid, t, spec):
     """the text the scripted LLM produces in turn t; `same_bot`: the very same text in every turn of the conversation
     (the rails' verdicts still differ per turn: a rail may depend on more than the text)"""
+    if spec.get("ref_bot") and spec.get("ver") == "v1":
+        # the LLM's whole answer is a text that spells a reference to a context variable: it is message text like any other
+        return "$user_message"
     return "BOT-%s-%s" % (cid, "S" if spec.get("same_bot") else t)
 
 
